@@ -131,8 +131,13 @@ native!(ObjectIsA, OBJECT_IS_A);
 impl LyNative for ObjectIsA {
   fn call(&self, hooks: &mut Hooks, args: &[Value]) -> Call {
     let self_class = hooks.get_class(args[0]);
-    let class = args[1].to_obj().to_class();
 
+    // nothing is an instance of a value that is not a class
+    if !args[1].is_obj_kind(ObjectKind::Class) {
+      return Call::Ok(val!(false));
+    }
+
+    let class = args[1].to_obj().to_class();
     Call::Ok(val!(self_class.is_subclass(class)))
   }
 }
